@@ -17,6 +17,7 @@ class PathView:
             self.pos.setdefault(b, i)
         self.s = sym_of(body)
         self._memo = {}
+        self._nfs = None
 
     def resolve(self, t, depth=0):
         """Replace every phi whose block lies on the path (with a predecessor on
@@ -57,13 +58,37 @@ class PathView:
     def value_at_end(self, pk):
         """Value of place pk after the last block of the path, along the path."""
         v = self.s.val(pk, self.path[-1], "after")
-        return self.prog.simp(self.resolve(v), self.body)
+        return self.reduce(self.prog.simp(self.resolve(v), self.body))
 
     def value_before_term(self, pk, block):
         i = self.pos[block]
         sub = PathView(self.prog, self.body, self.path[:i + 1], self.keep_headers)
         v = self.s.val(pk, block, "term")
-        return self.prog.simp(sub.resolve(v), self.body)
+        return self.reduce(self.prog.simp(sub.resolve(v), self.body))
+
+    def reduce(self, t, depth=0):
+        """Rewrite max / min / saturating_sub whose outcome is decided by the conditions of this path."""
+        if not isinstance(t, tuple) or not t or depth > 60:
+            return t
+        if not any(st[0] == "call" and st[1] in ("Ord::max", "Ord::min", "usize::saturating_sub") for st in subterms(t)):
+            return t
+        if self._nfs is None:
+            from .poly import fact_nf
+            self._nfs = {fact_nf(f) for f in self.facts() if f[0][0] == "cmp"}
+        from .poly import poly, GE0, GT0
+        if t[0] == "call" and t[1] in ("Ord::max", "Ord::min", "usize::saturating_sub") and len(t[2]) == 2:
+            a, b = self.reduce(t[2][0], depth + 1), self.reduce(t[2][1], depth + 1)
+            d = poly(a) - poly(b)
+            ge = GE0(d) in self._nfs or GT0(d) in self._nfs          # a >= b on this path
+            le = GE0(-d) in self._nfs or GT0(-d) in self._nfs         # a <= b on this path
+            if t[1] == "Ord::max" and (ge or le):
+                return a if ge else b
+            if t[1] == "Ord::min" and (ge or le):
+                return b if ge else a
+            if t[1] == "usize::saturating_sub" and le:
+                return ("int", 0)
+            return (t[0], t[1], (a, b))
+        return tuple(self.reduce(x, depth + 1) if isinstance(x, tuple) else x for x in t)
 
     def facts(self, edge_filter=None):
         out = []
@@ -107,11 +132,15 @@ def _const_default(g):
     """g is o.unwrap_or(<literal>) (or the saturating_sub it normalises to)."""
     if g[0] != "call":
         return False
-    if g[1] == "usize::saturating_sub":
+    if g[1] in ("usize::saturating_sub", "Ord::max", "Ord::min"):
         return True
     if g[1] == "Option::unwrap_or" and len(g[2]) == 2:
-        d = g[2][1]
-        return d[0] in ("int", "float", "char", "bool", "str") or (d[0] == "adt" and not d[3])
+        o, d = g[2]
+        if d[0] in ("int", "float", "char", "bool", "str") or (d[0] == "adt" and not d[3]):
+            return True
+        # a match on a pure lookup (get, last, find, checked_sub, strip_suffix ..) is a value-level conditional;
+        # a match on a state-advancing call (next()) is the control flow of an iteration and stays path-wise
+        return not any(st[0] in ("callm", "mut", "mutref") for st in subterms(o))
     return False
 
 
